@@ -38,6 +38,8 @@ func ToComplex(value interface{}, prec uint) (cmplx *Complex) {
 		cmplx[1] = new(big.Float).SetPrec(prec)
 	case uint64:
 		return ToComplex(new(big.Int).SetUint64(value), prec)
+	case uint:
+		return ToComplex(new(big.Int).SetUint64(uint64(value)), prec)
 	case *big.Float:
 		cmplx[0] = new(big.Float).SetPrec(prec).Set(value)
 		cmplx[1] = new(big.Float).SetPrec(prec)
